@@ -11,6 +11,10 @@ VIEW = ["bip", FLAGS, do_import, import_mol_attr]          FLAGS = dict sp rp bv
        ["line", text, rule|None, parse_rule_from_suffix]    CRNHyperGraph().add_rxn_from_str
        ["parse", [text, ...], default_rule, parse_rule_from_suffix, prefer_suffix]   rxns_to_hypergraph
 
+case = {"kind": "bip-edit", "net": NET, "views": [], "dviews": [[FLAGS, DROPS, import_mol_attr, IMPORT_OPTS], ...]}   (round 5)
+       export, then the caller DELETES attributes from the exported graph (DROPS = dict ksp krx lsp lrx st ro mol mk: kind / label on
+       species / reaction nodes, stoich / role on arcs, mol / bipartite marker on nodes), then import with IMPORT_OPTS = dict isp irp dr
+
 Observable per view: the INTERMEDIATE view (graph nodes/arcs with every attribute, or the printed lines) and the
 reconstructed network (species, id -> (rule, lhs, rhs), insertion order, both indices, molecule labels) or the error.
 """
@@ -22,7 +26,7 @@ from ..tok import S
 
 PID = "C16"
 COQ_HEADER = ("From stdpp Require Import gmap strings.\n"
-              "From SK Require Import lib.Tok model.C15_Model model.C16_Model.\n"
+              "From SK Require Import lib.Tok model.C15_Model model.C16_Model model.C16_Edit.\n"
               "Local Open Scope string_scope.\n")
 SHARD = 120                    # re-computed by gen_cases: see _set_shard
 IMPL_TIMEOUT = 1500
@@ -413,6 +417,60 @@ def _run_view(H, v, ret=None):
         return [_bip_obs(G)] if inc_rule else [_sg_obs(G)]
     raise AssertionError(k)
 
+DROP_KEYS = ["ksp", "krx", "lsp", "lrx", "st", "ro", "mol", "mk"]
+
+
+def drops(**kw):
+    d = {k: False for k in DROP_KEYS}
+    d.update(kw)
+    return d
+
+
+def _apply_drops(G, d):
+    """the caller deletes attributes from the graph it was handed (in place; node class read off `kind` first)"""
+    for _, nd in G.nodes(data=True):
+        rx = nd.get("kind") == "reaction"
+        if d["mk"]:
+            nd.pop("bipartite", None)
+        if d["lrx"] if rx else d["lsp"]:
+            nd.pop("label", None)
+        if d["krx"] if rx else d["ksp"]:
+            nd.pop("kind", None)
+        if d["mol"]:
+            nd.pop("mol", None)
+    for _, _, ed in G.edges(data=True):
+        if d["st"]:
+            ed.pop("stoich", None)
+        if d["ro"]:
+            ed.pop("role", None)
+    return G
+
+
+def _import_edited(G, mol_attr, io):
+    """bipartite_to_hypergraph on an edited graph.  When the importer had to SYNTHESISE an id for a reaction it stored (a node it took
+    for a reaction carries no edge_id: the id comes from hash()), the result is outside the model: reported as code 9 (= EUnmodelled)"""
+    from synkit.CRN.Hypergraph import conversion as cv
+    H2 = cv.bipartite_to_hypergraph(G, species_prefix=io["isp"], reaction_prefix=io["irp"], default_rule=io["dr"],
+                                    mol_attr=("mol" if mol_attr else None))
+    known = {str(nd["edge_id"]) for _, nd in G.nodes(data=True) if "edge_id" in nd}
+    return H2, (not set(H2.edges) <= known)
+
+
+def _run_dview(H, dv, ret):
+    fl, d, mol_attr, io = dv
+    G = _apply_drops(_export_bip(H, fl), d)
+    ret.append(G)
+    out = [_bip_obs(G)]
+    try:
+        H2, synth = _import_edited(G, mol_attr, io)
+        ret.append(H2)
+        out.append([9] if synth else [0, _net_obs(H2)])
+    except KeyError:
+        out.append([1])
+    except ValueError:
+        out.append([2])
+    return out
+
 
 def _run_views(H, views, hist):
     out = []
@@ -429,6 +487,14 @@ def impl(case):
     hist = bool(case.get("hist"))
     H = build(net)
     before = _net_obs(H)
+    if "dviews" in case:
+        outs = []
+        for dv in case["dviews"]:
+            ret = []
+            outs.append(_run_dview(H, dv, ret))
+            if hist:
+                _scramble(ret)
+        return [before] + outs + [_net_obs(H)]
     views = _run_views(H, case["views"], hist)
     first = [before] + views + [_net_obs(H)]      # all views run on ONE object; it must come out unchanged
     if "edits" not in case:
@@ -460,16 +526,26 @@ def _net(net):
     return "(mk_net %s %s %s)" % (kept, rx, ml)
 
 
+def _bflags(fl):
+    return "(BFlags %s %s %s %s %s %s %s %s %s %s)" % (
+        copt(None if fl["sp"] is None else cs(fl["sp"])), copt(None if fl["rp"] is None else cs(fl["rp"])),
+        cZ(_bvenc(fl["bv"][0])), cZ(_bvenc(fl["bv"][1])), cbool(fl["st"]), cbool(fl["ro"]), cbool(fl["iso"]), cbool(fl["int"]),
+        cbool(fl["eid"]), cbool(fl["mol"]))
+
+
+def _dview(dv):
+    fl, d, mol_attr, io = dv
+    return cpair(_bflags(fl), "(Drops %s)" % " ".join(cbool(d[k]) for k in DROP_KEYS),
+                 "(IFlags %s %s %s %s)" % (cs(io["isp"]), cs(io["irp"]), cs(io["dr"]), cbool(mol_attr)))
+
+
 def _view(v):
     k = v[0]
     if k == "bip":
         fl, do_imp, mol_attr = v[1], v[2], v[3]
         if do_imp and not fl["eid"]:
             return None                      # ids synthesised from hash(): outside the model's domain
-        f = "(BFlags %s %s %s %s %s %s %s %s %s %s)" % (
-            copt(None if fl["sp"] is None else cs(fl["sp"])), copt(None if fl["rp"] is None else cs(fl["rp"])),
-            cZ(_bvenc(fl["bv"][0])), cZ(_bvenc(fl["bv"][1])), cbool(fl["st"]), cbool(fl["ro"]), cbool(fl["iso"]), cbool(fl["int"]),
-            cbool(fl["eid"]), cbool(fl["mol"]))
+        f = _bflags(fl)
         if len(v) > 4:
             io = v[4]
             return "VBipI %s (IFlags %s %s %s %s)" % (f, cs(io["isp"]), cs(io["irp"]), cs(io["dr"]), cbool(mol_attr))
@@ -514,6 +590,8 @@ def _edit(ed):
 
 
 def coq_case(case):
+    if "dviews" in case:
+        return "run_drops %s %s" % (_net(case.get("net", {})), clist([_dview(dv) for dv in case["dviews"]]))
     vs = [_view(v) for v in case["views"]]
     if any(v is None for v in vs):
         return None
@@ -653,6 +731,16 @@ def oracle(case):
     hist = bool(case.get("hist"))
     shared = hist or "edits" in case
     H = build(net) if shared else None            # history cases: ONE object through all steps, as in impl()
+    if "dviews" in case:
+        # edited graphs: the property speaks about the graph as exported, so only the entries WITHOUT deletions are judged as
+        # round trips (the others: correspondence with the model); the exported network must come out unchanged in any case
+        H = build(net)
+        edges = _edges_of(H)
+        for dv in case["dviews"]:
+            _run_dview(H, dv, [])
+        fails = [] if _edges_of(H) == edges else [dict(clause="source-network-changed", detail="export / edited import changed the exported network")]
+        plain = [["bip", dv[0], True, dv[2], dict(dv[3])] for dv in case["dviews"] if not any(dv[1].values())]
+        return (fails + _oracle_batch(net, (), plain, None, False, ""))[:6]
     fails = _oracle_batch(net, (), case["views"], H, hist, "")
     if "edits" in case:
         for ed in case["edits"]:
@@ -757,6 +845,18 @@ def distribution(cases, obss):
             d["nets_with_name_collision"] += bool(ids & sp)
         d["nets_with_kept_species"] += bool(net.get("kept"))
         d["nets_with_mol"] += bool(net.get("mol"))
+        for dv, o in zip(c.get("dviews", []), obs[1:-1] if isinstance(obs, list) else []):
+            d["views"]["bip-edited"] = d["views"].get("bip-edited", 0) + 1
+            ei = d.setdefault("edited_imports", {"deletions": {}, "result": {}})
+            nd = str(sum(1 for x in dv[1].values() if x))
+            ei["deletions"][nd] = ei["deletions"].get(nd, 0) + 1
+            r = o[1] if isinstance(o, list) and len(o) == 2 else None
+            if isinstance(r, list) and r and r[0] == 0:
+                back = r[1][1].get("__set__", []) if isinstance(r[1][1], dict) else []
+                key = "network" if back else "empty network"
+            else:
+                key = {9: "id synthesised from hash (outside the model)", 1: "KeyError", 2: "ValueError"}.get(r[0] if r else None, "?")
+            ei["result"][key] = ei["result"].get(key, 0) + 1
         for v, o in zip(c["views"], obs[1:] if isinstance(obs, list) else []):
             d["views"][v[0]] = d["views"].get(v[0], 0) + 1
             if v[0] == "bip":
@@ -1033,6 +1133,34 @@ def _gen_cases(tier, rng):
         vs += [["sg", True, True, dict(dr="zz", rename=True)], ["sg", True, False, dict(dr="", rename=False)], ["sg", False, True, dict(dr="q", rename=True)]]
         rng.shuffle(vs)
         cases.append(dict(kind="markers", net=net, views=vs, hist=(t % 3 == 2)))
+    # ---- (round 5) the caller DELETES attributes from the exported graph before importing it: the importer's fall-backs
+    #      (kind -> id prefixes -> degrees; label -> str(node) / default_rule; stoich -> 1; mol absent) on real exports
+    for t in range(24 if quick else 200):
+        net = _rand_net(rng, nsp=rng.randint(1, 6), nrx=rng.randint(0, 6), adversarial=(t % 4 == 1)) if t % 6 else dict(kept=["K"], rxns=[], mol=[["K", "m"]])
+        dvs = []
+        for _ in range(14):
+            sp, rp = rng.choice(PREFIXES)
+            fl = bflags(sp=sp, rp=rp, bv=rng.choice(MARKERS[:6]), st=rng.random() < 0.85, ro=rng.random() < 0.7, iso=rng.random() < 0.6,
+                        int_=rng.random() < 0.3, eid=rng.random() < 0.9, mol=rng.random() < 0.7)
+            z = rng.random()
+            if z < 0.1:
+                d = drops()
+            elif z < 0.55:                                   # one deletion
+                d = drops(**{rng.choice(DROP_KEYS): True})
+            elif z < 0.7:                                    # untagged graph
+                d = drops(ksp=True, krx=True, mk=rng.random() < 0.5)
+            else:
+                d = {k: rng.random() < 0.35 for k in DROP_KEYS}
+            # importer prefixes: the exporter's own (so that the prefix fall-back can work), the defaults, or something else
+            z = rng.random()
+            if z < 0.6:
+                io = dict(isp=sp or "", irp=rp or "", dr=rng.choice(["r", "r", "zz", ""]))
+            elif z < 0.8:
+                io = dict(isp="S:", irp="R:", dr="r")
+            else:
+                io = rng.choice(IMPORT_OPTS[:4])
+            dvs.append([fl, d, rng.random() < 0.8, dict(isp=io["isp"], irp=io["irp"], dr=io["dr"])])
+        cases.append(dict(kind="bip-edit", net=net, views=[], dviews=dvs, hist=(t % 4 == 3)))
     # ---- wrappers / facades of the converters: _as_bipartite (own defaults: integer ids), _as_species_graph, _CRNGraphBackend
     for t in range(10 if quick else 60):
         net = _rand_net(rng, nsp=rng.randint(1, 6), nrx=rng.randint(0, 6))
